@@ -24,31 +24,55 @@ Theorem C17_changed_error_is_oserror : forall hint s c e,
 Proof. exact error_changed_is_oserror. Qed.
 Print Assumptions C17_changed_error_is_oserror.
 
-(* Full statement wanted: "check_structure [] ks = true -> no key is a proper prefix of another key".
-   It is FALSE of the code as written (order dependent, DESIGN F15).  Proved: the half the code does
-   guarantee — no key is a proper prefix of an EARLIER key. *)
-Theorem C17_leafnode_check_partial : forall ks,
-  check_structure [] ks = true ->
-  forall l1 k l2 k', ks = l1 ++ k :: l2 -> In k' l1 -> k <> [] -> proper_prefix k k' = false.
-Proof. exact check_structure_sound. Qed.
-Print Assumptions C17_leafnode_check_partial.
+(* the repaired leaf/node check (fc0e7cc) is exact: accepted iff no key is a proper prefix of another key,
+   hence independent of the order of the keys; with view_reject_unchanged above this is the full
+   "inputs it cannot represent are rejected without altering an existing view" for leaf/node conflicts *)
+Theorem C17_leafnode_check_exact : forall ks,
+  (forall k, In k ks -> k <> []) ->
+  (check_structure ks = true <-> forall k k', In k ks -> In k' ks -> proper_prefix k k' = false).
+Proof. exact check_structure_iff. Qed.
+Print Assumptions C17_leafnode_check_exact.
 
-Theorem C17_leafnode_check_refuted :
-  let k1 := [s_a; s_job] in let k2 := [s_a; s_job; s_b; s_job] in
-  check_structure [] [k1; k2] = true /\ check_structure [] [k2; k1] = false /\ proper_prefix k1 k2 = true.
-Proof. exact leafnode_order_dependent. Qed.
-Print Assumptions C17_leafnode_check_refuted.
+Theorem C17_leafnode_check_order_independent : forall ks ks',
+  (forall k, In k ks -> k <> []) -> (forall k, In k ks <-> In k ks') ->
+  check_structure ks = check_structure ks'.
+Proof. exact check_structure_order_independent. Qed.
+Print Assumptions C17_leafnode_check_order_independent.
 
-(* the defect reaches the file system: the accepted order creates the second link THROUGH the first,
-   inside the other job's directory; the reverse order of the same input is rejected *)
-Theorem C17_view_reject_unchanged_refuted :
-  let c := mkcall [mkjob s_j1 pf_a6; mkjob s_j2 pf_a6job5] in
-  let '(r1, (w1, _)) := run [] world0 c in
-  is_ok r1 = true /\ get world0 [s_p; s_j1; s_5] = None /\
-  get w1 [s_p; s_j1; s_5; s_job] = Some (Lnk (join_sep [s_dotdot; s_dotdot; s_dotdot; s_dotdot; s_dotdot; s_p; s_j2])) /\
-  fst (run [] world0 (mkcall [mkjob s_j2 pf_a6job5; mkjob s_j1 pf_a6])) = Err ERuntimeError.
-Proof. exact leafnode_accepted_pollutes. Qed.
-Print Assumptions C17_view_reject_unchanged_refuted.
+Theorem C17_leafnode_rejected_both_orders :
+  run [] world0 (mkcall [mkjob s_j1 pf_a6; mkjob s_j2 pf_a6job5]) = (Err ERuntimeError, (world0, 0%N)) /\
+  run [] world0 (mkcall [mkjob s_j2 pf_a6job5; mkjob s_j1 pf_a6]) = (Err ERuntimeError, (world0, 0%N)).
+Proof. exact leafnode_rejected_both_orders. Qed.
+Print Assumptions C17_leafnode_rejected_both_orders.
+
+(* ---------------------------------------------------------------- one link per selected job, containment *)
+(* an accepted link map of a non-empty selection has exactly one, distinct key per selected job and no
+   key is absolute, "..", or starts with "../" (55c0c50, bfa6c64) *)
+Theorem C17_one_key_per_job : forall c lk,
+  make_links c = Ok lk -> c_jobs c <> [] ->
+  NoDup (map fst lk) /\ (forall k, In k (map fst lk) -> leaves_view k = false) /\
+  length lk = length (c_jobs c).
+Proof. exact make_links_spec. Qed.
+Print Assumptions C17_one_key_per_job.
+
+Theorem C17_duplicate_paths_rejected : forall js1 j1 js2 j2 js3 acc p,
+  j_pf j1 = Ok p -> j_pf j2 = Ok p ->
+  exists e, build_links (js1 ++ j1 :: js2 ++ j2 :: js3) acc = Err e.
+Proof. exact duplicate_paths_rejected. Qed.
+Print Assumptions C17_duplicate_paths_rejected.
+
+(* containment: a key that passes the guard is a relative path without any ".." component *)
+Theorem C17_view_contained : forall p,
+  leaves_view (normpath_str (join_leaf p)) = false ->
+  exists r, normpath_str (join_leaf p) = join_sep r /\ Forall (fun c => updir c = false) r.
+Proof. exact key_contained. Qed.
+Print Assumptions C17_view_contained.
+
+Theorem C17_escaping_keys_rejected :
+  run [] world0 (mkcall [mkjob s_j1 pf_abs; mkjob s_j2 pf_a6]) = (Err ERuntimeError, (world0, 0%N)) /\
+  run [] world0 (mkcall [mkjob s_j1 s_dotdot; mkjob s_j2 pf_a6]) = (Err ERuntimeError, (world0, 0%N)).
+Proof. exact escaping_keys_rejected. Qed.
+Print Assumptions C17_escaping_keys_rejected.
 
 (* ---------------------------------------------------------------- the dead-branch analysis, for all inputs *)
 (* a branch is reported dead iff it is a node of the tree of existing paths and no key passes through it *)
@@ -93,15 +117,15 @@ Print Assumptions C17_make_link_step.
 
 (* ---------------------------------------------------------------- the incremental update is exact *)
 (* view_exact, on plain views.  For every tree w (one entry per name) whose prefix P holds exactly the view
-   of an OLD plain specification so (no link at the root of the prefix) with links that resolve to the
+   of an OLD plain specification so (one-job views with the link at the root included) with links that resolve to the
    directories they were made for, every NEW plain specification sn, every hint and cwd: _update_view
    succeeds and afterwards there is below P exactly the view of sn — one link per entry with the target
    the code computes, the directories leading to them, nothing else (no obsolete, stale or duplicate
    link, no empty directory) — and no path outside P changes its kind.  so and sn are arbitrary: any
-   additions, removals and re-keys between two runs.  PARTIAL only in that views with the link at the
-   root of the prefix (one selected job) and trees reached through the known defects are excluded. *)
+   additions, removals and re-keys between two runs.  PARTIAL only in that tokens must differ from the leaf
+   name "job" (open finding 5, refuted below) and the tree must have one entry per name. *)
 Theorem C17_view_exact_partial : forall P (so sn : spec) hint w n cwd,
-  P <> [] -> Forall plain P -> good_spec so -> good_spec sn -> no_root so -> no_root sn -> nwf w ->
+  P <> [] -> Forall plain P -> good_spec so -> good_spec sn -> nwf w ->
   Inv P w true (map (placed P cwd) so) ->
   (forall e, In e so -> realpath w cwd (pjoin (A P) (key_of e)) = snd e) ->
   exists w' k,
@@ -115,7 +139,7 @@ Print Assumptions C17_view_exact_partial.
    new one from scratch (in any tree where the prefix does not exist) give the same kind — same link
    text, same directories, same absences — at every path below the prefix. *)
 Theorem C17_view_incremental_eq_scratch_partial : forall P (so sn : spec) hint hint' w ws n n' cwd,
-  P <> [] -> Forall plain P -> good_spec so -> good_spec sn -> no_root so -> no_root sn -> nwf w ->
+  P <> [] -> Forall plain P -> good_spec so -> good_spec sn -> nwf w ->
   Inv P w true (map (placed P cwd) so) ->
   (forall e, In e so -> realpath w cwd (pjoin (A P) (key_of e)) = snd e) ->
   dirs_to ws (removelast P) -> get ws P = None ->
@@ -142,19 +166,17 @@ Print Assumptions C17_view_links_resolve.
 (* the scan of an existing plain view finds exactly the directories of its links *)
 Theorem C17_scan_exact : forall P, P <> [] -> Forall plain P ->
   forall w cwd cur,
-  Inv P w true cur -> nwf w -> (forall e, In e cur -> fst e <> []) ->
-  forall d, In d (find_all_links w cwd (A P)) <-> In d (map fst cur).
+  Inv P w true cur -> nwf w ->
+  forall d, In d (find_all_links w cwd (A P)) <-> exists T, In T (map fst cur) /\ d = rootdot T.
 Proof. exact scan_of_inv. Qed.
 Print Assumptions C17_scan_exact.
 
-(* view_idempotent, PARTIAL.  Full statement wanted: for every view the second run performs zero
-   operations.  Proved: for every tree (one entry per name) whose prefix holds exactly the view of a
-   plain specification WITHOUT a link at the root of the prefix (i.e. at least one distinguishing token
-   per job) and whose links resolve to the job directories, _update_view returns the state unchanged —
-   same tree, same operation counter — for every hint and cwd.  Missing: the root-level link, where the
-   statement is false (next theorem). *)
+(* view_idempotent.  For every tree (one entry per name) whose prefix holds exactly the view of a plain
+   specification — one-job views with the link at the root of the prefix included since bfa6c64 — and whose
+   links resolve to the job directories, _update_view returns the state unchanged: same tree, same
+   operation counter, for every hint and cwd.  "partial" only for the plain-token restriction. *)
 Theorem C17_view_idempotent_partial : forall P (sp : spec) hint w n cwd,
-  P <> [] -> Forall plain P -> good_spec sp -> no_root sp -> nwf w ->
+  P <> [] -> Forall plain P -> good_spec sp -> nwf w ->
   Inv P w true (map (placed P cwd) sp) ->
   (forall e, In e sp -> realpath w cwd (pjoin (A P) (key_of e)) = snd e) ->
   update_view hint (w, n) cwd (A P) (lk_of sp) = ok (w, n).
@@ -165,7 +187,7 @@ Print Assumptions C17_view_idempotent_partial.
    ([nwf w'] — one entry per name in the tree the first run produced — is kept as a hypothesis; it is
    not proved to be preserved by the model's tree update.) *)
 Theorem C17_view_fresh_then_noop : forall P (sp : spec) hint hint2 w n cwd w' n',
-  P <> [] -> Forall plain P -> Forall real P -> good_spec sp -> no_root sp ->
+  P <> [] -> Forall plain P -> Forall real P -> good_spec sp ->
   (forall e, In e sp -> Forall real (fst e)) -> good_targets P w sp ->
   dirs_to w (removelast P) -> get w P = None ->
   update_view hint (w, n) cwd (A P) (lk_of sp) = ok (w', n') -> nwf w' ->
@@ -173,21 +195,15 @@ Theorem C17_view_fresh_then_noop : forall P (sp : spec) hint hint2 w n cwd w' n'
 Proof. exact scratch_then_second_run_noop. Qed.
 Print Assumptions C17_view_fresh_then_noop.
 
-Theorem C17_view_idempotent_refuted :
+Theorem C17_view_one_job_noop :
   let c := mkcall [mkjob s_j1 []] in
   let '(r1, (w1, n1)) := run [] world0 c in
   let '(r2, (w2, n2)) := run [] w1 c in
-  is_ok r1 = true /\ is_ok r2 = true /\ w2 = w1 /\ n2 = 2%N.
-Proof. exact single_job_not_noop. Qed.
-Print Assumptions C17_view_idempotent_refuted.
+  is_ok r1 = true /\ is_ok r2 = true /\ w2 = w1 /\ n2 = 0%N /\ get w1 [s_v; s_job] <> None.
+Proof. exact single_job_noop. Qed.
+Print Assumptions C17_view_one_job_noop.
 
-(* ---------------------------------------------------------------- one link per selected job *)
-Theorem C17_one_link_per_job_refuted_duplicates :
-  let c := mkcall [mkjob s_j1 pf_a6; mkjob s_j2 pf_a6] in
-  exists lk w n, run [] world0 c = (Ok lk, (w, n)) /\ length lk = 1%nat /\ length (c_jobs c) = 2%nat.
-Proof. exact duplicate_paths_merge. Qed.
-Print Assumptions C17_one_link_per_job_refuted_duplicates.
-
+(* ---------------------------------------------------------------- still open (known findings 3 and 5) *)
 Theorem C17_one_link_per_job_refuted_empty_selection :
   let c := mkcall [] in
   exists lk w n, run [] world0 c = (Ok lk, (w, n)) /\ c_jobs c = [] /\
@@ -195,12 +211,12 @@ Theorem C17_one_link_per_job_refuted_empty_selection :
 Proof. exact empty_selection_links_a_job. Qed.
 Print Assumptions C17_one_link_per_job_refuted_empty_selection.
 
-Theorem C17_view_contained_refuted_absolute_key :
-  let c := mkcall [mkjob s_j1 pf_abs; mkjob s_j2 pf_a6] in
-  let '(r1, (w1, _)) := run [] world0 c in
-  is_ok r1 = true /\ get w1 [[120%N]; s_job] <> None /\ get w1 [s_v; [120%N]] = None.
-Proof. exact absolute_key_escapes. Qed.
-Print Assumptions C17_view_contained_refuted_absolute_key.
+Theorem C17_view_exact_refuted_leaf_name_token :
+  let '(r1, (w1, _)) := run [] world0 (mkcall [mkjob s_j1 []]) in
+  let '(r2, (w2, _)) := run [] w1 (mkcall [mkjob s_j2 pf_job5]) in
+  is_ok r1 = true /\ is_ok r2 = true /\ get w1 [s_p; s_j1; s_5] = None /\ get w2 [s_p; s_j1; s_5; s_job] <> None.
+Proof. exact leaf_name_token_pollutes. Qed.
+Print Assumptions C17_view_exact_refuted_leaf_name_token.
 
 (* ---------------------------------------------------------------- licence for the correspondence step *)
 (* If the implementation's observation agrees with the model on a case, the oracle's verdict on the
